@@ -25,7 +25,8 @@ import z3
 
 from pyvc import engine as E, models as M, np_model as NP, warp_model as W, xreal as X, attrs_model as AM, report, source, ckit
 from pyvc.engine import Obj, FuncVal, Builtin, Unsupported, PyRaise
-from pyvc.np_model import NDArray, QA, QE, QA2, zi, conc
+from pyvc.np_model import NDArray
+from pyvc.warp_model import QA, QE, QA2, zi, conc       # pinned copies of the small np_model helpers
 from pyvc.source import ModuleInfo
 
 OW = 'vizier._src.algorithms.designers.gp.output_warpers'
@@ -67,42 +68,102 @@ def zb(c):
 
 
 # ------------------------------------------------------------------------------------------ proof scripts
-def solve_once(pcs, axs, extra, f, ms, seed):
-    s = z3.Solver()
-    s.set('rlimit', int(ms) * 3000)
-    s.set('timeout', int(ms) * 3)
+SECOND = [False]       # thorough tier: every quantifier-free ('iso') proof step is re-checked by cvc5 from the exported SMT-LIB
+SECOND_STATS = {'checked': 0, 'agree_unsat': 0, 'unknown': 0, 'sat': 0, 'errors': 0}
+
+
+def second_opinion(solver):
+    import subprocess
+    import tempfile
+    SECOND_STATS['checked'] += 1
+    try:
+        with tempfile.NamedTemporaryFile('w', suffix='.smt2', delete=False, dir=os.path.join(report.OUT)) as fh:
+            fh.write('(set-logic ALL)\n' + solver.to_smt2())
+            path = fh.name
+        try:
+            r = subprocess.run(['/usr/bin/cvc5', '--tlimit=8000', path], capture_output=True, text=True, timeout=30)
+            ans = ((r.stdout or '').strip().splitlines() or ['timeout' if 'timeout' in (r.stderr or '') else 'error'])[0].strip()
+        finally:
+            os.unlink(path)
+        key = {'unsat': 'agree_unsat', 'sat': 'sat'}.get(ans, 'unknown' if (ans in ('unknown', 'timeout') or 'interrupted' in ans or not ans) else 'errors')
+        SECOND_STATS[key] += 1
+    except Exception:  # noqa: BLE001
+        SECOND_STATS['errors'] += 1
+
+
+RLIMIT_PER_MS = 2500      # pyvc convention (engine.discharge): the budget of a query is z3's deterministic resource limit, nominal_ms * 2500
+
+
+def solve_once(pcs, axs, extra, f, ms, seed, fresh=False):
+    """one z3 query under a DETERMINISTIC budget (rlimit); the wall-clock timeout is only a safety net (>= 20x the nominal budget), so a loaded
+    machine cannot change a verdict.  fresh: translate the query into a new z3 context (independent of the term numbering of this process)"""
+    if fresh:
+        ctx = z3.Context()
+        tr = lambda t: t.translate(ctx)
+        s = z3.Solver(ctx=ctx)
+    else:
+        ctx, tr = None, (lambda t: t)
+        s = z3.Solver()
+    s.set('rlimit', int(ms) * RLIMIT_PER_MS)
+    s.set('timeout', max(int(ms) * 25, 120000))
     s.set('random_seed', seed)
-    for c in pcs:
-        s.add(c)
-    for c in axs:
-        s.add(c)
-    for c in extra:
-        s.add(c)
-    s.add(z3.Not(f))
+    for c in list(pcs) + list(axs) + list(extra):
+        s.add(tr(c))
+    s.add(z3.Not(tr(f)))
     r = s.check()
-    return 'unsat' if r == z3.unsat else ('sat' if r == z3.sat else 'unknown')
+    v = 'unsat' if r == z3.unsat else ('sat' if r == z3.sat else 'unknown')
+    del s
+    return v
 
 
-def portfolio(pcs, axs, extra, f, timeout_ms):
-    """z3 verdicts on these queries (quantified library facts + nonlinear real arithmetic) depend on term numbering: try several seeds with a
-    small deterministic budget (rlimit) before spending the full budget; `unsat` from any attempt proves the step"""
+def portfolio(pcs, axs, extra, f, timeout_ms, effort=2):
+    """z3 verdicts on these queries (quantified library facts + nonlinear real arithmetic) depend on term numbering: a few seeds with a small
+    budget first, then the full budget, then ONE retry in a fresh context with three times the budget.  All budgets are rlimits (deterministic);
+    `unsat` from any attempt proves the step.  effort: 2 = everything, 1 = the cheap round only, 0 = one cheap attempt"""
     last = 'unknown'
-    for ms, seeds in ((min(1500, timeout_ms), (0, 1, 2)), (timeout_ms, (3, 0))):
+    rounds = [(min(1500, timeout_ms), (0, 1, 2), False), (timeout_ms, (0,), False), (3 * timeout_ms, (0,), True)]
+    if effort == 1:
+        rounds = [(min(1500, timeout_ms), (0, 1), False)]
+    elif effort <= 0:
+        rounds = [(min(800, timeout_ms), (0,), False)]
+    for ms, seeds, fresh in rounds:
         for seed in seeds:
-            last = solve_once(pcs, axs, extra, f, ms, seed)
-            if last == 'unsat':
-                return last
-            if last == 'sat':
+            last = solve_once(pcs, axs, extra, f, ms, seed, fresh)
+            if last in ('unsat', 'sat'):
                 return last
     return last
+
+
+def instances(axioms, terms, max_vars=2):
+    """ground instances of the universally quantified library facts (also under an implication / conjunction) at the given index terms:
+    hints for the solver where E-matching has no trigger term (sound: instances of facts that are in the context anyway)"""
+    import itertools
+    out = []
+
+    def walk(ax, guard):
+        if z3.is_quantifier(ax):
+            if ax.is_forall() and ax.num_vars() <= max_vars and all(ax.var_sort(i) == z3.IntSort() for i in range(ax.num_vars())):
+                for combo in itertools.product(terms, repeat=ax.num_vars()):
+                    body = z3.substitute_vars(ax.body(), *combo)
+                    out.append(z3.Implies(z3.And(*guard), body) if guard else body)
+            return
+        if z3.is_implies(ax):
+            walk(ax.arg(1), guard + [ax.arg(0)])
+        elif z3.is_and(ax):
+            for ch in ax.children():
+                walk(ch, guard)
+    for ax in axioms:
+        walk(ax, [])
+    return out
 
 
 class Script:
     """the proof script of one terminated path.  strong: prove every clause as stated; weak (residual) run: clauses and lemmas tagged
     with the key of a recorded finding are proved under the additional hypothesis 'outside the finding's witness class'."""
 
-    def __init__(self, path, fname, strong=True, budget_ms=8000, skip=(), carry=None, dead=(), pi=0):
+    def __init__(self, path, fname, strong=True, budget_ms=8000, skip=(), carry=None, dead=(), pi=0, deadline=None):
         self.path, self.run, self.fname, self.strong, self.pi = path, path.run, fname, strong, pi
+        self.deadline = deadline       # wall-clock time after which steps only get one cheap attempt (never a verdict other than proved/unknown)
         self.lem = dict(carry or {})   # name -> formula (proved on this path)
         self.dead = set(dead)          # untagged steps that already failed in the strong run
         self.skip = set(skip)          # finding keys whose strong form is not attempted (the library model itself refutes it)
@@ -117,24 +178,30 @@ class Script:
     # -- solver calls
     def _iso(self, f, hyps, timeout_ms):
         s = z3.Solver()
-        s.set('rlimit', int(timeout_ms) * 2500)
-        s.set('timeout', max(int(timeout_ms) * 15, 60000))
+        s.set('rlimit', int(timeout_ms) * RLIMIT_PER_MS)
+        s.set('timeout', max(int(timeout_ms) * 25, 120000))
         hs = list(hyps)
         for h in hs + W.ground_math(hs + [f]):
             s.add(h)
         s.add(z3.Not(f))
         r = s.check()
+        if r == z3.unsat and SECOND[0]:
+            second_opinion(s)
         return 'unsat' if r == z3.unsat else ('sat' if r == z3.sat else 'unknown')
 
-    def _ctx(self, f, extra, timeout_ms, tail=False, npc=None, nax=None):
+    def effort(self, base=2):
+        return base               # no wall-clock effect on the effort: budgets are deterministic (rlimit)
+
+    def _ctx(self, f, extra, timeout_ms, tail=False, npc=None, nax=None, effort=2):
         run = self.run
         pcs = run.pc if npc is None else run.pc[:npc]
         axs = run.axioms if nax is None else run.axioms[:nax]
+        effort = self.effort(effort)
         if tail and self.ax0 is not None:
-            v = portfolio(pcs, axs[self.ax0:], extra, f, timeout_ms)
+            v = portfolio(pcs, axs[self.ax0:], extra, f, timeout_ms, effort)
             if v == 'unsat':
                 return v
-        return portfolio(pcs, axs, extra, f, timeout_ms)
+        return portfolio(pcs, axs, extra, f, timeout_ms, effort)
 
     def hyps(self, uses):
         hs = []
@@ -144,7 +211,7 @@ class Script:
                 hs.append(swap(self.lem[u]))
         return hs
 
-    def step(self, name, f, mode='full', uses=(), claim=False, known=None, timeout_ms=None):
+    def step(self, name, f, mode='full', uses=(), claim=False, known=None, timeout_ms=None, subst=(), inst=()):
         """prove `f` on this path.  mode: 'full' (pc + all library facts + `uses`), 'tail' (pc + loop-exit facts, then full),
         'iso' (only `uses` and their i<->j swaps + ground instances of the math axioms; falls back to full).
         claim: a property clause (recorded as C18.<fn>.<name>); otherwise a lemma (C18.<fn>.lemma.<name>).
@@ -152,13 +219,17 @@ class Script:
         t0 = time.time()
         tmo = timeout_ms or self.budget_ms
         known = tuple(known) if isinstance(known, (tuple, list, set, frozenset)) else ((known,) if known else ())
+        known = tuple(k for k in known if k in LIVE)      # a finding that is fixed / no longer reproduces restricts nothing: the clause is checked in full
         if known and self.strong:
             tmo = min(tmo, 3000)       # the strong form of a clause tagged with a finding: a short attempt (it proves quickly once the defect is fixed)
+        elif known:
+            tmo = tmo * 2              # the residual form gets the full attention
         if not self.strong:
             if name in self.lem:
                 return True
             if not known and name in self.dead:
                 return False
+            self.dead.discard(name)
         if self.strong and any(k in self.skip for k in known):
             if claim:
                 self.out.append({'name': name, 'verdict': 'skipped', 'dt': 0.0, 'claim': True, 'known': known, 'strong': True, 'kind': 'claim',
@@ -168,20 +239,28 @@ class Script:
             v = 'unsat' if f else 'false'
         else:
             hs = self.hyps(uses)          # lemmas that are not available on this path (not proved / not attempted) are simply not used
+            for pairs in subst:           # further instances of the lemmas (they hold for arbitrary row indices)
+                hs += [z3.substitute(self.lem[u], *pairs) for u in uses if u in self.lem]
+            if inst:                      # ground instances of the quantified library facts at the index terms the step is about
+                hs += instances(self.run.axioms, list(inst))
+            lost = [u for u in uses if u in self.dead]          # a lemma this step was written to use has FAILED on this path
+            eff = 1 if (lost or (known and self.strong)) else 2
             if mode == 'iso':
                 v = self._iso(f, hs, tmo)
-                if v != 'unsat':
-                    v2 = self._ctx(f, hs + W.ground_math(hs + [f]), tmo)
+                if v != 'unsat' and not lost:
+                    v2 = self._ctx(f, hs + W.ground_math(hs + [f]), tmo, effort=eff)
                     v = v2 if v2 == 'unsat' else 'unknown'
+                elif v != 'unsat':
+                    v = 'unknown'
             elif mode == 'tail':
-                v = self._ctx(f, hs, tmo, tail=True)
+                v = self._ctx(f, hs, tmo, tail=True, effort=eff)
             else:
-                v = self._ctx(f, hs, tmo)
+                v = self._ctx(f, hs, tmo, effort=eff)
             if v == 'sat':
                 v = 'unknown'        # a model of a query with quantified library facts / dropped hypotheses is not a refutation
         if v == 'unsat' and not isinstance(f, bool):
             self.lem[name] = f
-        elif v != 'unsat' and not known:
+        elif v != 'unsat':
             self.dead.add(name)
         rec = {'name': name, 'verdict': v, 'dt': time.time() - t0, 'claim': claim, 'known': known, 'strong': self.strong,
                'kind': 'claim' if claim else 'lemma', 'path': self.path.describe(), 'pi': self.pi}
@@ -232,23 +311,32 @@ def run_spec(spec, tier, live=(), shard=(0, 1)):
     res = {'name': spec.name, 'quals': list(spec.quals), 'paths': [(p.kind, p.describe()) for p in paths], 'inst': [], 'assumed': set(), 'lib': set(),
            'inlined': set(), 'unsupported': sorted({p.value for p in paths if p.kind == 'unsupported'})}
     budget = 8000 if tier == 'quick' else 30000
+    deadline = time.time() + (160 if tier == 'quick' else 900)
+    SECOND[0] = tier == 'thorough'
+    # vacuity guard: the assumptions of (some of) the returning paths must not be refutable, otherwise everything would be provable
+    res['vacuity'] = []
+    for p in ([p for p in paths if p.kind == 'return'] if shard[0] == 0 else []):
+        res['vacuity'].append(portfolio(p.run.pc, p.run.axioms, [], z3.BoolVal(False), 800, effort=0))
+        if res['vacuity'][-1] != 'unsat':
+            break            # one returning path with consistent assumptions is enough (paths the quantifier-free path solver could not prune are fine)
     for pi, p in enumerate(paths):
         res['assumed'] |= p.run.assumed
         res['lib'] |= p.run.__dict__.get('lib_used', set())
         res['inlined'] |= p.run.inlined
         if p.kind == 'unsupported' or pi % shard[1] != shard[0]:
             continue
-        sc = Script(p, spec.name, True, budget, skip=set(spec.skip_strong(p)) & set(live), pi=pi)
+        sc = Script(p, spec.name, True, budget, skip=set(spec.skip_strong(p)) & set(live), pi=pi, deadline=deadline)
         sc.engine_obligations()
         if p.kind in ('return', 'raise'):
             spec.steps(sc, p)
         res['inst'] += sc.out
         weak_needed = {k for r in sc.out if r['verdict'] != 'unsat' for k in r['known']}
         if weak_needed and p.kind in ('return', 'raise'):
-            sw = Script(p, spec.name, False, budget, carry=sc.lem, dead=sc.dead, pi=pi)
+            sw = Script(p, spec.name, False, budget, carry=sc.lem, dead=[d for d in sc.dead], pi=pi, deadline=deadline)
             spec.steps(sw, p)
             res['inst'] += sw.out
     res['wall'] = time.time() - t0
+    res['second'] = dict(SECOND_STATS)
     return res
 
 
@@ -258,7 +346,7 @@ def fresh_labels(it, name='y', lo=1):
     run = it.run
     n = run.fresh('n', z3.IntSort())
     run.assume(n >= lo)
-    inp = NP.fresh_array(run, name, (n, 1), 'float')
+    inp = W.fresh_array(run, name, (n, 1), 'float')
     run.c18 = {'inp': inp, 'n': n, 'f0': inp.fn}
     return inp
 
@@ -294,6 +382,9 @@ def raise_steps(sc, p, allowed_when=None, known=None):
     """clause `raises_only_documented`: the only exception is the documented ValueError for a +inf label (or, for `allowed_when`,
     another documented ValueError); anything else must be unreachable.  known = (finding key, class formula fn, exception names)"""
     c = p.run.c18
+    if exc_name(p) == 'ValueError' and c.get('ctor_pending'):
+        # ValueError raised by the component's own constructor validation (the real attrs validators / __attrs_post_init__ were executed)
+        return sc.step('raises_only_documented', True, claim=True)
     if exc_name(p) == 'ValueError':
         msg = str((p.value.attrs.get('args') or ('',))[0])
         if 'Infinity' in msg:
@@ -338,7 +429,7 @@ def validate_badshape_entry(it):
     run = it.run
     n = run.fresh('n', z3.IntSort())
     run.assume(n >= 0)
-    inp = NP.fresh_array(run, 'y', (n,), 'float')
+    inp = W.fresh_array(run, 'y', (n,), 'float')
     run.c18 = {'inp': inp, 'n': n, 'f0': inp.fn}
     return it.call(FuncVal(mod(), mod().funcs['_validate_labels']), [inp], {})
 
@@ -377,6 +468,23 @@ def C_halfrank(y, o, n, G):
         'order_of_finite_preserved': z3.Implies(z3.And(rng(n, I_, J_), G, fin2, X.lt(y(I_), y(J_))), X.lt(o(I_), o(J_))),
         'ties_preserved': z3.Implies(z3.And(fin2, y(I_) == y(J_)), o(I_) == o(J_)),
         'output_finite_or_nan': z3.Implies(rng(n, I_), z3.Or(X.is_fin(o(I_)), X.is_nan(o(I_)))),
+    }
+
+
+def C_outliers(y, o, n, g_z):
+    return {
+        'each_entry_kept_or_marked_infeasible': z3.Implies(rng(n, I_), z3.Or(o(I_) == y(I_), X.is_nan(o(I_)))),
+        'only_labels_below_kept_ones_are_dropped': z3.Implies(z3.And(rng(n, I_, J_), X.is_fin(y(I_)), X.is_nan(o(I_)), X.is_fin(o(J_))), X.lt(y(I_), y(J_))),
+        'some_label_is_kept': z3.Implies(z3.And(g_z, QE(n, lambda t: X.is_fin(y(t)))), QE(n, lambda t: X.is_fin(o(t)))),
+    }
+
+
+def C_ttg(y, o, n, allfin, G):
+    two = z3.And(rng(n, A_, B_), y(A_) != y(B_))
+    return {
+        'order_preserved_on_finite_labels': z3.Implies(z3.And(rng(n, I_, J_), allfin, G, X.lt(y(I_), y(J_))), z3.And(X.is_fin(o(I_)), X.is_fin(o(J_)), X.lt(o(I_), o(J_)))),
+        'ties_preserved': z3.Implies(z3.And(rng(n, I_, J_), allfin, G, y(I_) == y(J_)), o(I_) == o(J_)),
+        'finite_output_for_nonconstant_finite_labels': z3.Implies(z3.And(rng(n, I_), allfin, two), X.is_fin(o(I_))),
     }
 
 
@@ -445,11 +553,12 @@ def log_entry(roundtrip):
         run = it.run
         inp = fresh_labels(it)
         off = run.fresh('offset', z3.RealSort())
-        run.assume(off > 0)                      # the attrs validator of `offset`: gt(0.0)
-        obj = make(it, 'LogWarperComponent', _labels_min=None, _labels_max=None, offset=X.fin(off))
-        run.c18.update(obj=obj, off=off)
         for a in W.math_axioms():
             run.axiom(a)
+        run.c18.update(off=off, ctor_pending=True)
+        # the REAL attrs constructor with an arbitrary real offset: its validator decides which offsets exist (rejected ones end the path)
+        obj = it.call(mod().classes['LogWarperComponent'], [], {'offset': X.fin(off)})
+        run.c18.update(obj=obj, ctor_pending=False)
         w = call(it, obj, 'warp', inp)
         if not roundtrip:
             return w
@@ -704,6 +813,15 @@ def halfrank_steps(sc, p):
                     z3.Implies(tk, z3.And(pos(I_) >= 0, pos(I_) < n, y(pos(I_)) == ol.at(I_), o(pos(I_)) == wl.at(I_))), claim=True)
         else:
             sc.step('unwarper_table_pairs_observed_label_with_its_warped_value', False, claim=True)
+        if pos is not None:
+            # the saved median is the threshold that warp used (known finding: it is the median of the DISTINCT values instead)
+            same_med = sc.hyp(K_UNW_MEDIAN, ol.at(K / 2) == med)
+            tk_ = z3.And(I_ >= 0, I_ < K)
+            sc.step('unwarper_tables_consistent_with_saved_median',
+                    z3.Implies(z3.And(tk_, G, same_med), z3.And(z3.Implies(X.le(om, ol.at(I_)), wl.at(I_) == ol.at(I_)),
+                                                                z3.Implies(X.lt(ol.at(I_), om), X.lt(wl.at(I_), om)))), claim=True, known=(K_UNW_MEDIAN, K_HR_NAN),
+                    uses=['unwarper_table_pairs_observed_label_with_its_warped_value', 'top_half_unchanged', 'below_median_mapped_strictly_below', 'median_finite'],
+                    subst=[[(I_, pos(I_))]])
 
 
 Spec('HalfRankComponent.warp', ['HalfRankComponent.warp', 'HalfRankComponent._estimate_std_of_good_half', '_validate_labels'], halfrank_entry, halfrank_steps,
@@ -715,12 +833,12 @@ def goodstd_entry(it):
     run = it.run
     K = run.fresh('K', z3.IntSort())
     run.assume(K >= 1)
-    u = NP.fresh_array(run, 'u', (K,), 'float')
+    u = W.fresh_array(run, 'u', (K,), 'float')
     thr = run.fresh('thr', z3.RealSort())
     a, b = run.fresh('a', z3.IntSort()), run.fresh('b', z3.IntSort())
     f = u.fn
-    NP.fact(run, QA(K, lambda t: X.is_fin(f(t))))
-    NP.fact(run, QA2(K, lambda t1, t2: X.r(f(t1)) < X.r(f(t2))))
+    W.fact(run, QA(K, lambda t: X.is_fin(f(t))))
+    W.fact(run, QA2(K, lambda t1, t2: X.r(f(t1)) < X.r(f(t2))))
     run.assume(z3.And(a >= 0, a < K, X.r(f(a)) >= thr))            # some label is >= the threshold (the threshold is the median)
     run.c18 = {'u': u, 'thr': thr, 'K': K, 'b': b, 'u_fn': u.fn}
     for ax in W.math_axioms():
@@ -753,16 +871,19 @@ def unwarper_entry(exact):
         run = it.run
         K = run.fresh('K', z3.IntSort())
         run.assume(K >= 1)
-        ol, wl = NP.fresh_array(run, 'orig', (K,), 'float'), NP.fresh_array(run, 'warped', (K,), 'float')
+        ol, wl = W.fresh_array(run, 'orig', (K,), 'float'), W.fresh_array(run, 'warped', (K,), 'float')
         om = run.fresh('omed', z3.RealSort())
         fo, fw = ol.fn, wl.fn
         # class invariant of _HalfRankUnwarper as established by HalfRankComponent.warp (clauses unwarper_*): both tables finite and
         # strictly ascending, same length
         for f in (fo, fw):
-            NP.fact(run, QA(K, lambda t: X.is_fin(f(t))))
+            W.fact(run, QA(K, lambda t: X.is_fin(f(t))))
             t1, t2 = z3.Int('tb!1'), z3.Int('tb!2')
             run.axiom(z3.ForAll([t1, t2], z3.Implies(z3.And(t1 >= 0, t1 < t2, t2 < K), X.r(f(t1)) < X.r(f(t2))), patterns=[z3.MultiPattern(f(t1), f(t2))]))
         run.assume(om <= X.r(fw(K - 1)))              # clause unwarper_saved_median_at_most_largest_warped of HalfRankComponent.warp
+        if K_UNW_MEDIAN not in LIVE:
+            # clause unwarper_tables_consistent_with_saved_median of HalfRankComponent.warp (holds in full only once the recorded defect is fixed)
+            W.fact(run, QA(K, lambda t: z3.And(z3.Implies(X.r(fo(t)) >= om, fw(t) == fo(t)), z3.Implies(X.r(fo(t)) < om, X.r(fw(t)) < om))))
         k = run.fresh('k', z3.IntSort())
         run.assume(z3.And(k >= 0, k < K))
         lab = run.fresh('label', z3.RealSort())
@@ -785,10 +906,27 @@ def unwarper_steps(exact):
         if not exact:
             sc.step('identity_at_or_above_saved_median', z3.Implies(lab >= om, r == X.fin(lab)), claim=True)
             return
+        ss = p.run.__dict__.get('np_searchsorted', [])
+        am = p.run.__dict__.get('np_argmins', [])
+        terms = [k, k - 1, k + 1, z3.IntVal(0), z3.IntVal(1)]
+        hints = []
+        if ss:
+            s0 = ss[0][2]
+            # the lookup: searchsorted(warped, warped[k]) == k on a strictly ascending table
+            sc.step('lookup_position_is_the_entry', s0 == k, inst=terms + [s0, s0 - 1])
+            hints.append('lookup_position_is_the_entry')
+            if am:
+                lo = z3.If(s0 - 1 > 0, s0 - 1, 0)
+                b0 = am[0][1]
+                sc.step('window_argmin_is_the_entry', lo + b0 == k, uses=hints, inst=terms + [b0, k - lo])      # idx-1 <= best_idx <= idx, distance 0 is unique
+                hints.append('window_argmin_is_the_entry')
+            for t_, (a2, v2, s2, side2) in enumerate(ss[1:]):
+                sc.step('later_lookup_%d_is_the_entry' % (t_ + 1), s2 == k, uses=hints, inst=terms + [s2, s2 - 1])
+                hints.append('later_lookup_%d_is_the_entry' % (t_ + 1))
         close = W._np_isclose(None, [fw(z3.IntVal(1)), X.fin(lab)], {})
         not_med = sc.hyp(K_UNW_MEDIAN, z3.Not(z3.And(lab >= om, fw(k) != fo(k))))
         not_close = sc.hyp(K_UNW_CLOSE, z3.Not(z3.And(lab < om, k >= 2, close)))
-        sc.step('returns_original_of_observed_warped_value', z3.Implies(z3.And(not_med, not_close), r == fo(k)), claim=True, known=(K_UNW_MEDIAN, K_UNW_CLOSE))
+        sc.step('returns_original_of_observed_warped_value', z3.Implies(z3.And(not_med, not_close), r == fo(k)), claim=True, known=(K_UNW_MEDIAN, K_UNW_CLOSE), uses=hints, inst=terms)
     return steps
 
 
@@ -862,7 +1000,7 @@ def spy_warper(tag):
             run = it_.run
             a = args[0]
             n = run.c18['n']
-            res = NP.fresh_array(run, 'w%d_' % tag, (n, 1), 'float')
+            res = W.fresh_array(run, 'w%d_' % tag, (n, 1), 'float')
             run.c18.setdefault('calls', []).append({'tag': tag, 'kind': kind, 'arg': a, 'arg_fn': a.fn if isinstance(a, NDArray) else None,
                                                     'arg_shape': a.shape if isinstance(a, NDArray) else None, 'res': res, 'res_fn': res.fn})
             return res
@@ -983,9 +1121,10 @@ def normalize_entry(it):
     run = it.run
     inp = fresh_labels(it)
     a, b = run.fresh('ta', z3.RealSort()), run.fresh('tb', z3.RealSort())
-    run.assume(a <= b)                             # __attrs_post_init__ rejects target_interval[0] > target_interval[1]
-    obj = make(it, 'NormalizeLabels', target_interval=(X.fin(a), X.fin(b)))
-    run.c18.update(ta=a, tb=b)
+    run.c18.update(ta=a, tb=b, ctor_pending=True)
+    # the REAL constructor (__attrs_post_init__ rejects target_interval[0] > target_interval[1])
+    obj = it.call(mod().classes['NormalizeLabels'], [], {'target_interval': (X.fin(a), X.fin(b))})
+    run.c18.update(obj=obj, ctor_pending=False)
     return call(it, obj, 'warp', inp)
 
 
@@ -1009,6 +1148,7 @@ def outliers_entry(it):
     run = it.run
     inp = fresh_labels(it)
     mz = run.fresh('min_zscore', z3.RealSort())
+    run.c18['mz'] = mz
     obj = make(it, 'DetectOutliers', min_zscore=X.fin(mz), max_zscore=None)
     for a in W.math_axioms():
         run.axiom(a)
@@ -1030,12 +1170,14 @@ def outliers_steps(sc, p):
     fin2 = z3.And(rng(n, I_, J_), X.is_fin(o(I_)), X.is_fin(o(J_)))
     sc.step('input_not_modified', isinstance(out, NDArray) and out is not c['inp'] and not_modified(c), claim=True)
     sc.step('shape_preserved', shape_is(out, n), claim=True)
-    sc.step('each_entry_kept_or_marked_infeasible', z3.Implies(rng(n, I_), z3.Or(o(I_) == y(I_), X.is_nan(o(I_)))), claim=True)
+    mz = c['mz']
+    C = C_outliers(y, o, n, mz >= 0)
+    sc.step('each_entry_kept_or_marked_infeasible', C['each_entry_kept_or_marked_infeasible'], claim=True)
     sc.step('order_and_ties_of_kept_entries_preserved',
             z3.Implies(fin2, z3.And(X.lt(y(I_), y(J_)) == X.lt(o(I_), o(J_)), (y(I_) == y(J_)) == (o(I_) == o(J_)))), claim=True,
             mode='iso', uses=['each_entry_kept_or_marked_infeasible'])
-    sc.step('only_labels_below_kept_ones_are_dropped',
-            z3.Implies(z3.And(rng(n, I_, J_), X.is_fin(y(I_)), X.is_nan(o(I_)), X.is_fin(o(J_))), X.lt(y(I_), y(J_))), claim=True)
+    sc.step('only_labels_below_kept_ones_are_dropped', C['only_labels_below_kept_ones_are_dropped'], claim=True)
+    sc.step('some_label_is_kept', C['some_label_is_kept'], claim=True)
 
 
 Spec('DetectOutliers.warp', ['DetectOutliers.warp', 'DetectOutliers._estimate_variance', '_validate_labels'], outliers_entry, outliers_steps, native='outliers')
@@ -1074,7 +1216,7 @@ def component_contract(kind):
         if it.truth(haspinf):
             raise PyRaise(it.make_exc('ValueError', ['Infinity metric value is not valid.']))
         y = validated(f)
-        res = NP.fresh_array(run, kind, (n, 1), 'float')
+        res = W.fresh_array(run, kind, (n, 1), 'float')
         g = res.fn
         o = lambda t: g(t, 0)
         nz = zi(n)
@@ -1183,7 +1325,7 @@ Spec('create_default_warper().warp', ['create_default_warper', 'OutputWarperPipe
 
 # =========================================================================================== driver: native side, parallel proof tasks, verdicts
 GENERIC_LIBS = ['numpy.masks_and_copies', 'scalar_math_and_transcendental_axioms']
-SHARDS = {'HalfRankComponent.warp': 4}
+SHARDS = {'HalfRankComponent.warp': 6, 'create_default_warper().warp': 2, 'DetectOutliers.warp': 2}
 
 
 def _child(conn, spec_index, tier, live, shard):
@@ -1212,7 +1354,7 @@ def run_tasks(chk, tier, specs, live, budget_s):
         k = SHARDS.get(sp.name, 1)
         for w in range(k):
             tasks.append((sp, (w, k)))
-    maxpar = int(os.environ.get('VERIF_C18_PROCS', '10'))
+    maxpar = min(8, int(os.environ.get('VERIF_C18_PROCS', '8')))       # one flat pool of at most 8 forked proof tasks (never nested)
     pending, running, done = list(tasks), [], {}
     t_end = time.time() + budget_s
     while pending or running:
@@ -1246,8 +1388,9 @@ def run_tasks(chk, tier, specs, live, budget_s):
     return done
 
 
-def native_jobs(pool, tier):
-    pool.start('witness', 'c18_replay.py', ['witness'])
+def native_jobs(pool, tier, open_keys):
+    if open_keys:             # only OPEN findings are replayed; entries with status "fixed" are history (never replayed, suppress nothing)
+        pool.start('witness', 'c18_replay.py', ['witness'] + sorted(open_keys))
     pool.start('conformance', 'c18_conformance.py', ['300' if tier == 'quick' else '3000'])
 
 
@@ -1277,12 +1420,22 @@ def record_spec(chk, spec, msgs, findings, conf, falsify_jobs):
     live_paths = [k for k, d in ress[0]['paths'] if k in ('return', 'raise')]
     if not live_paths and not unsupported:
         chk.obligation(pre + 'vacuity', spec.name, 'checker', report.ERROR, 0.0, detail='no terminating path explored')
+    vac = [v for res in ress for v in res.get('vacuity', [])]
+    if vac and all(v == 'unsat' for v in vac):
+        chk.obligation(pre + 'vacuity', spec.name, 'checker', report.ERROR, 0.0,
+                       detail='the assumptions of every checked returning path are inconsistent (everything would be provable)')
+    agg = chk.extra.setdefault('second_solver_cvc5', {'checked': 0, 'agree_unsat': 0, 'unknown': 0, 'sat': 0, 'errors': 0})
+    for res in ress:
+        for k2, v2 in (res.get('second') or {}).items():
+            agg[k2] = agg.get(k2, 0) + v2
     libs = sorted({l for res in ress for l in res['lib']} | set(GENERIC_LIBS))
     bad_libs = [l for l in libs if not (conf.get(l) or {}).get('ok')]
     groups = {}
     for r in inst:
         groups.setdefault((r['kind'], r['name']), []).append(r)
     nclaims = 0
+    # a loop invariant / library precondition that is not discharged: the clauses derived from it are additionally tested on the real code
+    engine_bad = sorted({r['name'] for r in inst if r['kind'] == 'engine' and r['verdict'] != 'unsat'})
     for (kind, name), recs in groups.items():
         tsum = sum(r['dt'] for r in recs)
         strong = [r for r in recs if r['strong']]
@@ -1313,17 +1466,30 @@ def record_spec(chk, spec, msgs, findings, conf, falsify_jobs):
         # ---- a property clause
         nclaims += 1
         oname = pre + name
-        failing = [r for r in strong if r['verdict'] != 'unsat']
+        # a tagged clause none of whose findings is live has the same formula in the residual run (hyp() adds nothing): that proof counts
+        failing = [r for r in strong if r['verdict'] != 'unsat'
+                   and not (not (set(r['known']) & LIVE) and weak.get(r['pi'], {}).get('verdict') == 'unsat')]
         if not failing:
             if bad_libs:
                 falsify_jobs.append({'oname': oname, 'spec': spec, 'clause': name, 'tsum': tsum, 'detail': detail, 'bad_libs': bad_libs,
                                      'cases': [conf[l].get('counterexample') for l in bad_libs if (conf.get(l) or {}).get('counterexample')]})
+            elif engine_bad:
+                detail['derived_from_undischarged'] = engine_bad
+                falsify_jobs.append({'oname': oname, 'spec': spec, 'clause': name, 'tsum': tsum, 'detail': detail, 'bad_libs': [], 'cases': [],
+                                     'proved_modulo': engine_bad})
             else:
                 chk.obligation(oname, spec.name, 'z3' if not all(r['dt'] == 0.0 for r in recs) else 'paths', report.PROVED, tsum, detail=detail)
             continue
         tags = {k for r in failing for k in r['known']}
         live_tags = sorted(k for k in tags if k in LIVE and k in findings)
         resid_ok = all(weak.get(r['pi'], {}).get('verdict') == 'unsat' for r in failing)
+        if live_tags and resid_ok and not bad_libs and engine_bad:
+            # the residual proof rests on an undischarged loop invariant / precondition: test the clause natively OUTSIDE the finding classes
+            detail['derived_from_undischarged'] = engine_bad
+            falsify_jobs.append({'oname': oname, 'spec': spec, 'clause': name, 'tsum': tsum, 'detail': detail, 'bad_libs': [], 'cases': [],
+                                 'exclude': sorted(tags), 'known_if_not_found': ('; '.join('%s [%s]' % (findings[k]['what'], k) for k in live_tags), live_tags,
+                                                                                   sum(w['dt'] for w in weak.values()), len(failing))})
+            continue
         if live_tags and resid_ok and not bad_libs:
             what = '; '.join('%s [%s]' % (findings[k]['what'], k) for k in live_tags)
             detail['finding_keys'] = live_tags
@@ -1343,7 +1509,7 @@ def settle_falsification(chk, jobs):
     is a violation; nothing found = undecided"""
     if not jobs:
         return
-    payload = [{'runner': j['spec'].native, 'clause': j['clause'], 'cases': [c for c in j['cases'] if c]} for j in jobs]
+    payload = [{'runner': j['spec'].native, 'clause': j['clause'], 'cases': [c for c in j['cases'] if c], 'exclude': j.get('exclude', [])} for j in jobs]
     out, raw = ckit.run_replay('c18_replay.py', ['falsify'], payload=payload, timeout=600)
     results = (out or {}).get('results') or [None] * len(jobs)
     for j, r in zip(jobs, results):
@@ -1360,12 +1526,28 @@ def settle_falsification(chk, jobs):
         elif d.get('definitely_false_on_a_path'):
             chk.obligation(j['oname'], j['spec'].name, 'paths', report.VIOLATED, j['tsum'], detail=d,
                            model='the clause is decidably false on a feasible path of the real AST (frame / call-sequence clause)', replay=None, reproduced=None)
+        elif j.get('known_if_not_found'):
+            what, live_tags, wdt, nfail = j['known_if_not_found']
+            d['finding_keys'] = live_tags
+            chk.obligation(j['oname'], j['spec'].name, 'z3+native-witness', report.KNOWN, j['tsum'], detail=d, finding=what)
+            chk.obligation(j['oname'] + '.residual', j['spec'].name, 'z3', report.PROVED, wdt,
+                           detail={'clause': 'the same clause for every input outside the witness class(es) of %s' % live_tags, 'instances': nfail,
+                                   'note': 'derived from the loop invariant / precondition obligations %s, which are reported undecided on their own' % d.get('derived_from_undischarged')})
+        elif j.get('proved_modulo'):
+            d['note'] = 'derived from the loop invariant / precondition obligations %s, which are reported undecided on their own' % j['proved_modulo']
+            chk.obligation(j['oname'], j['spec'].name, 'z3', report.PROVED, j['tsum'], detail=d)
         else:
             d['reason'] = 'not proved (solver unknown) and no failing input found natively: %s' % (r if r is not None else raw[-300:])
             chk.obligation(j['oname'], j['spec'].name, 'z3', report.UNDECIDED, j['tsum'], detail=d)
 
 
 def main(tier):
+    if os.environ.get('PYTHONHASHSEED') != '0':
+        # z3 verdicts near a budget depend on the order in which terms are created; fix python's string hashing so that every run of this check
+        # builds its terms in the same order (budgets are rlimits: same order + same budget = same verdict, whatever the machine load)
+        import subprocess
+        env2 = dict(os.environ, PYTHONHASHSEED='0', VERIF_TIER=tier)
+        return subprocess.call([sys.executable, '-m', 'pyvc.check', 'C18', '--tier', tier], env=env2, cwd=report.VERIF)
     chk = report.Check('C18', tier, level='proof',
                        technique='contract-based deductive verification of the real output_warpers.py: VCs from the real AST (pyvc symbolic execution; numpy/scipy '
                                  'as assumed contracts over symbolic-size arrays; loop invariants; per-path proof scripts of lemmas over two arbitrary row '
@@ -1388,12 +1570,14 @@ def main(tier):
         chk.function(OW, q)
     specs = [sp for sp in SPECS if not ONLY or any(o in sp.name for o in ONLY)]
     pool = ckit.ReplayPool()
-    native_jobs(pool, tier)
-    findings = finding_entries(chk)
-    wout, wraw = pool.get('witness', timeout=300)
-    wit = (wout or {}).get('witness') or {}
-    if wout is None:
-        chk.error('C18.native.witness', 'the witness programs of the recorded findings could not be run: %s' % wraw[-800:])
+    findings = {k: f for k, f in finding_entries(chk).items() if f.get('status', 'open') == 'open'}
+    native_jobs(pool, tier, set(findings))
+    wout, wraw, wit = {}, '', {}
+    if findings:
+        wout, wraw = pool.get('witness', timeout=900)
+        wit = (wout or {}).get('witness') or {}
+        if wout is None:
+            chk.error('C18.native.witness', 'the witness programs of the recorded findings could not be run: %s' % wraw[-800:])
     LIVE.clear()
     for k, f in findings.items():
         if f.get('status', 'open') != 'open':
@@ -1405,8 +1589,8 @@ def main(tier):
             print('NOTE: property=C18 the recorded finding %s no longer reproduces on the current code (stale entry in known_findings.d/C18.json); '
                   'its clauses are checked in full' % k)
             chk.note('finding %s is stale (its witness no longer fails).' % k)
-    done = run_tasks(chk, tier, specs, LIVE, budget_s=240 if tier == 'quick' else 1500)
-    cout, craw = pool.get('conformance', timeout=600)
+    done = run_tasks(chk, tier, specs, LIVE, budget_s=1500 if tier == 'quick' else 4000)       # safety net only (a hung solver), not a budget
+    cout, craw = pool.get('conformance', timeout=1800)
     conf = (cout or {}).get('contracts') or {}
     if cout is None:
         chk.error('C18.native.conformance', 'the library conformance tests could not be run: %s' % craw[-800:])
@@ -1420,6 +1604,160 @@ def main(tier):
     for sp in specs:
         record_spec(chk, sp, done.get(sp.name, [('error', 'no result')]), findings, conf, jobs)
     settle_falsification(chk, jobs)
+    sec = chk.extra.get('second_solver_cvc5') or {}
+    if sec.get('sat'):
+        chk.error('C18.second_solver', 'cvc5 answers sat on %d quantifier-free proof step(s) that z3 answered unsat' % sec['sat'])
+    if tier == 'thorough' and not ONLY:
+        # supplementary, never counted: every natively evaluable clause on the deterministic battery of label arrays (real code)
+        bout, braw = ckit.run_replay('c18_replay.py', ['all'], timeout=900)
+        viol = sorted(((bout or {}).get('violated') or {}).keys()) if bout else None
+        chk.bounded_standin('native battery of the clause predicates on the real warpers', 'about 300 label arrays of length 1..6 per runner and parameter setting '
+                            '(duplicates, NaN, -inf, +inf, magnitudes 1e-3..1e9), floating point', 'violated clauses: %s (all of them belong to recorded findings)' % viol
+                            if viol is not None else 'could not be run', detail=(bout or {}).get('violated') if bout else braw[-500:])
     chk.extra['findings_live'] = sorted(LIVE)
     chk.extra['library_contracts'] = dict(W.CONTRACTS)
     return chk.finish(min_obligations=60 if not ONLY else 1)
+
+
+# =========================================================================================== TransformToGaussian
+K_TTG_RANK = key('ttg_use_rank_argsort')
+
+
+def ttg_entry(it):
+    run = it.run
+    inp = fresh_labels(it)
+    ur = run.fresh('use_rank', z3.BoolSort())
+    for a in W.math_axioms():
+        run.axiom(a)
+    run.c18.update(use_rank=ur, ctor_pending=True)
+    obj = it.call(mod().classes['TransformToGaussian'], [], {'use_rank': ur})       # the real __init__ (default soft-clip parameters)
+    run.c18.update(obj=obj, ctor_pending=False)
+    return call(it, obj, 'warp', inp)
+
+
+def ttg_steps(sc, p):
+    c = p.run.c18
+    n, f0 = c['n'], c['f0']
+    y = validated(f0)
+    if p.kind == 'raise':
+        return raise_steps(sc, p)
+    out = p.value
+    o = lambda t: out.at(t, 0)
+    allfin = QA(n, lambda t: X.is_fin(f0(t, 0)))           # what the preceding InfeasibleWarperComponent guarantees in create_warp_outliers_warper
+    two = z3.And(rng(n, A_, B_), y(A_) != y(B_))
+    G = sc.hyp(K_TTG_RANK, z3.Not(c['use_rank']))
+    sc.step('input_not_modified', isinstance(out, NDArray) and out is not c['inp'] and not_modified(c), claim=True)
+    sc.step('shape_preserved', shape_is(out, n), claim=True)
+    C = C_ttg(y, o, n, allfin, G)
+    sc.step('order_preserved_on_finite_labels', C['order_preserved_on_finite_labels'], claim=True, known=K_TTG_RANK)
+    sc.step('ties_preserved', C['ties_preserved'], claim=True, known=K_TTG_RANK)
+    sc.step('finite_output_for_nonconstant_finite_labels', C['finite_output_for_nonconstant_finite_labels'], claim=True)
+
+
+def ttg_skip(p):
+    return {K_TTG_RANK}
+
+
+Spec('TransformToGaussian.warp', ['TransformToGaussian.warp', 'TransformToGaussian.__init__', '_validate_labels'], ttg_entry, ttg_steps, skip_strong=ttg_skip,
+     native='ttg')
+
+
+# =========================================================================================== create_warp_outliers_warper().warp as a composition
+def component_contract2(kind):
+    def fn(it, args, kw):
+        self, a = args[0], args[1]
+        run = it.run
+        if not isinstance(a, NDArray) or a.rank != 2:
+            raise Unsupported('pipeline stage applied to %r' % (a,))
+        n, f = a.shape[0], a.fn
+        haspinf = W.named_bool(it, QE(n, lambda t: X.is_pinf(f(t, 0))), 'haspinf')
+        if it.truth(haspinf):
+            raise PyRaise(it.make_exc('ValueError', ['Infinity metric value is not valid.']))
+        y = validated(f)
+        nz = zi(n)
+        if kind == 'outliers':
+            somefin = W.named_bool(it, QE(n, lambda t: X.is_fin(y(t))), 'somefin')
+            if not it.truth(somefin):
+                raise PyRaise(it.make_exc('ValueError', ['The max label value should be finite.']))
+        res = W.fresh_array(run, kind, (n, 1), 'float')
+        g = res.fn
+        o = lambda t: g(t, 0)
+        if kind == 'outliers':
+            C = C_outliers(y, o, nz, X.r(X.lift(self.attrs['min_zscore'])) >= 0)
+        else:
+            ur = self.attrs['use_rank']
+            G = z3.Not(zb(ur)) if K_TTG_RANK in LIVE else z3.BoolVal(True)
+            C = C_ttg(y, o, nz, W.named_bool(it, QA(n, lambda t: X.is_fin(f(t, 0))), 'ttg_all_finite'), G)
+        for nm in C:
+            run.axiom(quantified(C[nm]))
+        run.c18.setdefault('stages', []).append({'kind': kind, 'y': y, 'o': o, 'arg': a, 'res': res})
+        run.assumed.add('pipeline stage %s replaced by the clauses proved for it by its own specification (assume-guarantee)' % kind)
+        return res
+    return fn
+
+
+OUTLIER_MODELS = {
+    OW + ':DetectOutliers.warp': component_contract2('outliers'),
+    OW + ':InfeasibleWarperComponent.warp': component_contract('infeasible'),
+    OW + ':TransformToGaussian.warp': component_contract2('ttg'),
+}
+
+
+def outlier_pipeline_entry(it):
+    inp = fresh_labels(it)
+    pipe = it.call(FuncVal(mod(), mod().funcs['create_warp_outliers_warper']), [], {})
+    return call(it, pipe, 'warp', inp)
+
+
+def outlier_pipeline_steps(sc, p):
+    c = p.run.c18
+    n, f0 = c['n'], c['f0']
+    y = validated(f0)
+    if p.kind == 'raise':
+        return raise_steps(sc, p)
+    out = p.value
+    o = lambda t: out.at(t, 0)
+    st = c.get('stages', [])
+    fin2 = z3.And(rng(n, I_, J_), X.is_fin(y(I_)), X.is_fin(y(J_)))
+    sc.step('input_not_modified', isinstance(out, NDArray) and out is not c['inp'] and not_modified(c), claim=True)
+    sc.step('shape_preserved', shape_is(out, n), claim=True)
+    if not st:
+        v = z3.simplify(o(I_))
+        sc.step('shortcut_value_is_zero_or_minus_one', bool(v.eq(X.fin(z3.RealVal(0))) or v.eq(X.fin(z3.RealVal(-1)))), claim=True)
+        sc.step('all_outputs_finite', True, claim=True)
+        return
+    ok = [s_['kind'] for s_ in st] == ['outliers', 'infeasible', 'ttg'] and out is st[-1]['res']
+    sc.step('outlier_components_in_order', ok, claim=True)
+    if not ok:
+        return
+    h, l = st[0]['o'], st[1]['o']
+    sc.step('stage1_input', z3.Implies(rng(n, I_), st[0]['y'](I_) == y(I_)))
+    sc.step('stage1_kept_or_nan', z3.Implies(rng(n, I_), z3.Or(h(I_) == y(I_), X.is_nan(h(I_)))), uses=['stage1_input'])
+    sc.step('stage1_dropped_below_kept', z3.Implies(z3.And(rng(n, I_, J_), X.is_fin(y(I_)), X.is_nan(h(I_)), X.is_fin(h(J_))), X.lt(y(I_), y(J_))), uses=['stage1_input'])
+    sc.step('stage2_input', z3.Implies(rng(n, I_), st[1]['y'](I_) == h(I_)), uses=['stage1_kept_or_nan'])
+    sc.step('stage2_finite', z3.Implies(rng(n, I_), X.is_fin(l(I_))), uses=['stage2_input'])
+    sc.step('stage2_order', z3.Implies(z3.And(rng(n, I_, J_), X.is_fin(h(I_)), X.is_fin(h(J_))),
+                                       z3.And(X.lt(h(I_), h(J_)) == X.lt(l(I_), l(J_)), (h(I_) == h(J_)) == (l(I_) == l(J_)))), uses=['stage2_input'])
+    sc.step('stage2_nan_lowest', z3.Implies(z3.And(rng(n, I_, J_), X.is_nan(h(I_))),
+                                            z3.And(z3.Implies(X.is_fin(h(J_)), X.lt(l(I_), l(J_))), z3.Implies(X.is_nan(h(J_)), l(I_) == l(J_)))), uses=['stage2_input'])
+    sc.step('stage3_input', z3.Implies(rng(n, I_), st[2]['y'](I_) == l(I_)), uses=['stage2_finite'])
+    sc.step('stage3_all_finite', QA(n, lambda t: X.is_fin(st[2]['arg'].fn(t, 0))), uses=['stage2_finite'])
+    sc.step('stage3_monotone', z3.Implies(rng(n, I_, J_), z3.And(z3.Implies(X.lt(l(I_), l(J_)), z3.And(X.is_fin(o(I_)), X.is_fin(o(J_)), X.lt(o(I_), o(J_)))),
+                                                                z3.Implies(l(I_) == l(J_), o(I_) == o(J_)))), uses=['stage3_input', 'stage3_all_finite'])
+    chain = ['stage1_kept_or_nan', 'stage1_dropped_below_kept', 'stage2_finite', 'stage2_order', 'stage2_nan_lowest', 'stage3_monotone']
+    sc.step('kept_labels_keep_their_order', z3.Implies(z3.And(fin2, X.is_fin(h(I_)), X.is_fin(h(J_)), X.lt(y(I_), y(J_))), X.lt(o(I_), o(J_))), claim=True, mode='iso', uses=chain)
+    sc.step('order_never_reversed', z3.Implies(z3.And(fin2, X.lt(y(I_), y(J_))), z3.Or(X.lt(o(I_), o(J_)), o(I_) == o(J_))), claim=True, mode='iso', uses=chain)
+    sc.step('ties_preserved', z3.Implies(z3.And(fin2, y(I_) == y(J_)), o(I_) == o(J_)), claim=True, mode='iso', uses=chain)
+    sc.step('infeasible_no_higher_than_any_feasible', z3.Implies(z3.And(rng(n, I_, J_), X.is_nan(y(I_)), X.is_fin(y(J_))), z3.Or(X.lt(o(I_), o(J_)), o(I_) == o(J_))),
+            claim=True, mode='iso', uses=chain)
+    # finiteness: the TransformToGaussian stage needs two distinct inputs
+    sc.step('some_label_finite', QE(n, lambda t: X.is_fin(y(t))))
+    sc.step('some_label_kept', QE(n, lambda t: X.is_fin(h(t))), uses=['some_label_finite', 'stage1_input'])
+    sc.step('nan_or_two_distinct_labels', z3.Or(QE(n, lambda t: X.is_nan(y(t))), QE(n, lambda a: QE(n, lambda b: y(a) != y(b)))))
+    sc.step('stage3_two_distinct_inputs', QE(n, lambda a: QE(n, lambda b: l(a) != l(b))),
+            uses=['some_label_kept', 'nan_or_two_distinct_labels', 'stage1_kept_or_nan', 'stage2_order', 'stage2_nan_lowest', 'stage2_finite'])
+    sc.step('all_outputs_finite', z3.Implies(rng(n, I_), X.is_fin(o(I_))), claim=True, uses=['stage3_two_distinct_inputs', 'stage3_input', 'stage3_all_finite'])
+
+
+Spec('create_warp_outliers_warper().warp', ['create_warp_outliers_warper', 'OutputWarperPipeline.warp', '_validate_labels'], outlier_pipeline_entry, outlier_pipeline_steps,
+     models=OUTLIER_MODELS, native='outlier_pipeline')
